@@ -174,6 +174,9 @@ func buildHostTree(kind string) (*hostTree, error) {
 	t.links["slow60"] = strings.Repeat("b", 60)
 	t.links["slow200"] = "/" + strings.Repeat("c", 199)
 	t.links["rel"] = "sub/deeper/leaf.bin"
+	// fast symbolic links (target inside the inode) that nevertheless own a block: an extended attribute too large for the inode
+	t.links["fast44x"] = strings.Repeat("d", 44)
+	t.links["fast59x"] = strings.Repeat("e", 59)
 	for _, d := range t.dirs {
 		if err := os.MkdirAll(filepath.Join(dir, d), 0o755); err != nil {
 			return nil, err
@@ -236,6 +239,8 @@ func buildHostTree(kind string) (*hostTree, error) {
 	t.mtimes["plain.txt"] = 1
 	t.xattrs["xattr-inode.bin"] = map[string]string{"user.small": "v1"}
 	t.xattrs["xattr-block.bin"] = map[string]string{"user.big": strings.Repeat("X", 900), "user.second": "two"}
+	t.xattrs["fast44x"] = map[string]string{"trusted.big": strings.Repeat("Y", 700)}
+	t.xattrs["fast59x"] = map[string]string{"trusted.big": strings.Repeat("Z", 700)}
 	hostTrees.m[kind] = t
 	return t, nil
 }
